@@ -81,6 +81,15 @@ class Shim:
             _homog(obj)
         return _np.array(obj, dtype=dtype, **kw)
 
+    def fromiter(self, it, dtype=None, count=-1, **kw):
+        if _is_numeric_dtype(dtype):
+            xs = list(it) if count is None or count < 0 else [x for _, x in zip(range(count), it)]
+            a = _np.empty((len(xs),), dtype=object)
+            for i, x in enumerate(xs):
+                a[i] = x
+            return a
+        return _np.fromiter(it, dtype=dtype, count=count, **kw)
+
     def asarray(self, obj, dtype=None, **kw):
         if _is_numeric_dtype(dtype) or dtype is object:
             dtype = object
